@@ -8,23 +8,15 @@ Import ListNotations.
 (* ------------------------------------------------------------------ *)
 (* compile                                                              *)
 
-Lemma single_width_closed a : single_width a = true -> closed_complements a = true.
-Proof.
-  unfold single_width, closed_complements. intros H. rewrite forallb_forall in *.
-  intros at_ Hin. specialize (H at_ Hin). destruct at_ as [c| | |b]; try reflexivity.
-  cbn [single_width_atom closed_complement] in *. apply negb_true_iff in H. rewrite H.
-  rewrite andb_false_r. reflexivity.
-Qed.
-
 Lemma compile_ast_cases cfg a :
-  closed_complements a = true -> to_literal a = None ->
+  to_literal a = None ->
   match rx_of_ast cfg a with
   | Some r => compile_ast cfg a = COk (BodyRx r (starts_with_literal_dot a))
   | None => exists e, compile_ast cfg a = CErr e
   end.
 Proof.
-  intros Hcl Hlit. unfold compile_ast. rewrite Hlit.
-  pose proof (fmt_regex_parses_back cfg a Hcl) as H.
+  intros Hlit. unfold compile_ast. rewrite Hlit.
+  pose proof (fmt_regex_parses_back cfg a) as H.
   destruct (ast_fmt cfg a) as [s|e].
   - rewrite H. destruct (rx_of_ast cfg a); [reflexivity|eexists; reflexivity].
   - rewrite H. eexists; reflexivity.
@@ -173,12 +165,12 @@ Proof.
   - intros Hd. exists k. rewrite Nat.sub_diag. split; [lia|]. split; [exact Hd|constructor].
 Qed.
 
-Lemma sem_suffix_closed a ns :
-  closed_complements a = true -> all_some (map node_of_atom a) = Some ns ->
+Lemma sem_suffix_any a ns :
+  all_some (map node_of_atom a) = Some ns ->
   forall pos v k, RM (ns ++ [REndText]) pos v k <-> Denote a v /\ k = length v.
 Proof.
-  intros Hp Hns pos v k.
-  rewrite (RM_denote_gen a ns (nodes_sem_closed a ns Hp Hns) [REndText] pos v k). split.
+  intros Hns pos v k.
+  rewrite (RM_denote_gen a ns (nodes_sem_any a ns Hns) [REndText] pos v k). split.
   - intros (j & Hj & [Hd1 Hd2] & HR).
     inversion HR as [| | | | | |? ? ? HR']; subst. inversion HR'; subst.
     assert (Hjl : j = length v).
@@ -192,7 +184,7 @@ Qed.
 Lemma sem_suffix a ns :
   single_width a = true -> all_some (map node_of_atom a) = Some ns ->
   forall pos v k, RM (ns ++ [REndText]) pos v k <-> Denote a v /\ k = length v.
-Proof. intros Hsw. apply sem_suffix_closed. apply single_width_closed. exact Hsw. Qed.
+Proof. intros _. apply sem_suffix_any. Qed.
 
 Lemma rx_of_ast_nodes cfg a :
   rx_of_ast cfg a =
@@ -210,15 +202,15 @@ Proof. intros H. unfold compile_ast. rewrite H. reflexivity. Qed.
 (* ------------------------------------------------------------------ *)
 (* THEOREM: `case` patterns (both ends anchored)                        *)
 
-Theorem case_pattern_correct_closed p a s :
-  parse_pattern p = Some a -> closed_complements a = true ->
+Theorem case_pattern_correct_any p a s :
+  parse_pattern p = Some a ->
   match compile case_config p with
   | COk b => pat_is_match case_config b s = true <-> Matches a s
   | CErr _ => valid_ast a = false
   | CUnsup | CFuel => False
   end.
 Proof.
-  intros Hp Hpl. rewrite (compile_parse _ _ _ Hp).
+  intros Hp. rewrite (compile_parse _ _ _ Hp).
   destruct (to_literal a) as [l|] eqn:Hlit.
   - rewrite (compile_literal _ _ _ Hlit). pose proof (to_literal_chars _ _ Hlit) as ->.
     unfold Matches. rewrite valid_chars, Denote_chars.
@@ -227,17 +219,17 @@ Proof.
     + apply str_eqb_eq in E. subst. cbn [is_some]. split; [intros _; split; reflexivity|reflexivity].
     + cbn [is_some]. split; [discriminate|]. intros [_ ->].
       assert (str_eqb l l = true) by (apply str_eqb_eq; reflexivity). congruence.
-  - pose proof (compile_ast_cases case_config a Hpl Hlit) as Hc.
+  - pose proof (compile_ast_cases case_config a Hlit) as Hc.
     rewrite rx_of_ast_nodes in Hc. cbn [case_config anchor_begin anchor_end] in Hc.
-    rewrite (valid_nodes_closed a Hpl) in *. unfold Matches. rewrite (valid_nodes_closed a Hpl).
+    rewrite (valid_nodes_any a) in *. unfold Matches. rewrite (valid_nodes_any a).
     destruct (all_some (map node_of_atom a)) as [ns|] eqn:Hns; cbn [omap] in Hc.
     + rewrite Hc. cbn [pat_is_match at_index case_config literal_period shortest_match andb app].
       rewrite find_start. cbn [is_some].
       destruct (bt false (ns ++ [REndText]) 0 s) as [k|] eqn:Eb; cbn [omap is_some].
-      * apply bt_sound in Eb. apply (sem_suffix_closed a ns Hpl Hns) in Eb as [Hd _].
+      * apply bt_sound in Eb. apply (sem_suffix_any a ns Hns) in Eb as [Hd _].
         split; [intros _; split; [reflexivity|exact Hd]|reflexivity].
       * split; [discriminate|]. intros [_ Hd]. exfalso.
-        eapply (bt_none _ _ _ _ Eb). apply (sem_suffix_closed a ns Hpl Hns). split; [exact Hd|reflexivity].
+        eapply (bt_none _ _ _ _ Eb). apply (sem_suffix_any a ns Hns). split; [exact Hd|reflexivity].
     + destruct Hc as [e ->]. reflexivity.
 Qed.
 
@@ -248,7 +240,7 @@ Theorem case_pattern_correct p a s :
   | CErr _ => valid_ast a = false
   | CUnsup | CFuel => False
   end.
-Proof. intros Hp Hsw. apply case_pattern_correct_closed; [exact Hp|apply single_width_closed; exact Hsw]. Qed.
+Proof. intros Hp _. apply case_pattern_correct_any. exact Hp. Qed.
 
 (* ------------------------------------------------------------------ *)
 (* prefix / suffix matches in terms of the translated regex             *)
@@ -488,7 +480,7 @@ Proof.
     + cbn [pat_find].
       destruct (lit_find (trim_config side len) l v false) as [[x y]|]; eexists; split;
         try reflexivity; exact Hspec.
-  - pose proof (compile_ast_cases (trim_config side len) a (single_width_closed a Hsw) Hlit) as Hc.
+  - pose proof (compile_ast_cases (trim_config side len) a Hlit) as Hc.
     rewrite rx_of_ast_nodes in Hc.
     destruct (all_some (map node_of_atom a)) as [ns|] eqn:Hns; cbn [omap] in Hc.
     + rewrite Hc. destruct side.
